@@ -182,6 +182,17 @@ def run_shard(spec):
             return
         if got:
             digests.add(digest(desc))
+            # the returned set belongs to the caller (ExprTask keeps it, callers extend it): emptying it must not
+            # change what the next walk reports
+            keep = set(got)
+            got.clear()
+            again = e._get_dependencies()
+            counters["result_sets_mutated_by_the_caller"] = counters.get("result_sets_mutated_by_the_caller", 0) + 1
+            if again != keep:
+                violations.append({"what": "C05 %s: after the caller emptied the returned set, the next walk of %s reports %s instead of %s" % (
+                    desc, e, sorted(map(str, again)) if isinstance(again, set) else again, sorted(map(str, keep))), "case": desc})
+                return
+            got = again
         # a copy of the expression (deepcopy / pickle round trip: nodes are rebuilt through __reduce__, e.g. a
         # call from its (name, value) pairs) reports the same locations
         if expected is not None and (desc[2].startswith("direct") or desc[0].startswith("CallRef") or desc[0].startswith("BuiltinRef")):
